@@ -175,11 +175,17 @@ def e2e_case(draw):
     c = draw(gen_run.run_case(jobs=(1, 2), formats=('default', 'pretty', 'wrap'), with_cc=False,
                               with_delay=True, comparisons=False, max_asserts=5,
                               kinds=['monotone', 'hash', 'mixed']))
-    c['kind'] = draw(st.sampled_from(['launcher-interrupt', 'after-accept-interrupt', 'sigint']))
+    c['kind'] = draw(st.sampled_from(['launcher-interrupt', 'after-accept-interrupt', 'after-accept-interrupt', 'sigint']))
     if c['kind'] == 'after-accept-interrupt':
-        c['opts']['strategy'] = draw(st.sampled_from(['hierarchical', 'hybrid']))
-        c['opts']['jobs'] = draw(st.sampled_from([2, 3, 4]))
+        c['opts']['strategy'] = draw(st.sampled_from(['hierarchical', 'hybrid', 'ddmin', 'ddmin']))
+        c['opts']['jobs'] = draw(st.sampled_from([2, 3, 4] if c['opts']['strategy'] != 'ddmin' else [1, 1, 2]))
         c['nth'] = draw(st.integers(1, 6))
+        if c['opts']['strategy'] == 'ddmin':
+            # mostly substitutions: many accepted steps leave the number of expressions as it is
+            c['nth'] = draw(st.integers(1, 10))
+            if draw(st.booleans()):
+                c['opts']['extra_argv'] = ['--disable-all', '--replace-by-variable',
+                                           '--arith-constants', '--bv-simp-constants', '--simplify-symbol-names']
     c['point'] = draw(st.integers(1, 4000))
     c['after_tests'] = draw(st.integers(2, 120))
     return c
